@@ -68,7 +68,7 @@ def plan(tier, seed):
     if tier == "quick":
         return [{"mode": "random", "n": 900, "timeout_s": 900} for _ in range(8)]
     sp = [{"mode": "allshapes", "part": i, "parts": 12, "timeout_s": 3600} for i in range(12)]
-    sp += [{"mode": "random", "n": 12000, "timeout_s": 3600} for _ in range(4)]
+    sp += [{"mode": "random", "n": 60000, "timeout_s": 3600} for _ in range(4)]
     return sp
 
 
